@@ -1,6 +1,6 @@
 SPECIFICATION Spec
 CONSTANTS
-  MaxArgv = 2
+  MaxArgv = 3
   EmitOn = TRUE
 INVARIANTS Emit
 CHECK_DEADLOCK FALSE
